@@ -17,9 +17,12 @@ controllers. Here the first half is separated out, for ARBITRARY sinks / control
 * `LexE.parse_lexE_args` / `LexE.run_lexEA` (`Lemmas/LexOnlyEArgs.lean`) — the until-first-error lifting of
   `Lemmas/LexOnlyE.lean` with the per-operation comparison of the two sinks asked for VALID lexemes only.
 
-The only hypothesis about the sink is `ArgsFresh`: it does not itself report one of the guard's two errors
-(`.panic s` for a chosen token-part site `s`, `.panic rawSite`) on a lexeme the guard lets through. (Without it
-"guarded = real" is still true but the guard's refusal could not be told from the sink's own answer.)
+The only hypothesis about the sink is `ArgsFresh s ops inp Dk`: on sink states with an invariant `Dk` (which its
+successful operations keep; `fun _ => True` for "all states") it does not itself report one of the guard's two errors
+(`.panic s` for a chosen token-part site `s ≠ rawSite`, `.panic rawSite`; both can be taken among the dispatcher's own
+slice checks) on a lexeme the guard lets through. (Without it "guarded = real" is still true but the guard's refusal
+could not be told from the sink's own answer. `Dk` is there because the real controller of pkg-full can return ANY panic
+string from states no run reaches — its `fault` field.)
 -/
 namespace LolHtml.Thm.C15
 open LolHtml LolHtml.Model
@@ -50,15 +53,16 @@ example : (computeRaw Gen.Syntax.table).at 34 = [⟨false, true, true⟩] ∧ (c
 /-- **C15_parse_args_valid.** -/
 theorem C15_parse_args_valid {κ : Type} (tbl : Table) (cfg : TagCfg) (ops : SinkOps κ) (hwf : WfTable tbl = true)
     (hcert : checkCert tbl (computeCert tbl) = true) (hraw : checkRaw tbl (computeRaw tbl) = true)
-    (hemit : EmitsChecked tbl = true) (s : String) (hs : T2 s) (inp : Bytes) (hf : ArgsFresh s ops inp)
-    (last : Bool) (p : Parser κ) (hp : PArgs tbl (computeCert tbl) (computeRaw tbl) inp.length p) :
+    (hemit : EmitsChecked tbl = true) (s : String) (hs : T2 s) (hne : s ≠ rawSite) (inp : Bytes) (Dk : κ → Prop)
+    (hf : ArgsFresh s ops inp Dk) (last : Bool) (p : Parser κ)
+    (hp : PArgs tbl (computeCert tbl) (computeRaw tbl) inp.length p) (hDk : Dk p.x.sink) :
     Parser.parse ⟨tbl, cfg, guardArgs (argGuard s) ops⟩ inp last p = Parser.parse ⟨tbl, cfg, ops⟩ inp last p ∧
     (Parser.parse ⟨tbl, cfg, ops⟩ inp last p).2 ≠ .error (.panic s) ∧
     (Parser.parse ⟨tbl, cfg, ops⟩ inp last p).2 ≠ .error (.panic rawSite) ∧
     (∀ k, (Parser.parse ⟨tbl, cfg, ops⟩ inp last p).2 = .ok k →
-      k ≤ inp.length ∧
+      k ≤ inp.length ∧ Dk (Parser.parse ⟨tbl, cfg, ops⟩ inp last p).1.x.sink ∧
       (last = false → PArgs tbl (computeCert tbl) (computeRaw tbl) (inp.length - k) (Parser.parse ⟨tbl, cfg, ops⟩ inp last p).1)) :=
-  parse_args_valid (WfTable.wf hwf) hcert hraw hemit hs hf last p hp
+  parse_args_valid (WfTable.wf hwf) hcert hraw hemit hs hne hf last p hp hDk
 
 /-- a new parser has the invariants, whatever the slice -/
 theorem C15_new_pargs {κ : Type} (tbl : Table) (hwf : WfTable tbl = true) (hcert : checkCert tbl (computeCert tbl) = true)
@@ -72,15 +76,15 @@ the next `write` (whatever chunk comes next) and of the final `end` IS the call 
 returns neither of the guard's errors. -/
 theorem C15_args_valid_run (w : World γ) (hwf : WfTable w.tbl = true)
     (hcert : checkCert w.tbl (computeCert w.tbl) = true) (hraw : checkRaw w.tbl (computeRaw w.tbl) = true)
-    (hemit : EmitsChecked w.tbl = true) (s0 : String) (hs0 : T2 s0) (hf : ∀ inp, ArgsFresh s0 (dispOps w.ctl) inp)
-    (g : γ) (cfg : Settings) (pre : List Bytes)
+    (hemit : EmitsChecked w.tbl = true) (s0 : String) (hs0 : T2 s0) (hne : s0 ≠ rawSite) (Dk : Disp γ → Prop)
+    (hf : ArgsCtl w s0 Dk) (g : γ) (cfg : Settings) (hD : Dk (Disp.new w.ctl g cfg.encoding)) (pre : List Bytes)
     (hu : (writeAll w (Rewriter.new w g cfg) pre).1.poisoned = false) :
     (∀ data s1 chunk, (writeAll w (Rewriter.new w g cfg) pre).1.stream.chunkFor w data = .inr (s1, chunk) →
       ParseArgsOK w s0 chunk false s1.parser) ∧
     ParseArgsOK w s0 (if (writeAll w (Rewriter.new w g cfg) pre).1.stream.hasBuffered
         then (writeAll w (Rewriter.new w g cfg) pre).1.stream.buf.data else []) true
       (writeAll w (Rewriter.new w g cfg) pre).1.stream.parser :=
-  args_valid_run ⟨WfTable.wf hwf, hcert, hraw, hemit⟩ hs0 hf g cfg pre hu
+  args_valid_run ⟨WfTable.wf hwf, hcert, hraw, hemit⟩ hs0 hne hf g cfg hD pre hu
 
 /-! ### what the two lexeme predicates give (the facts pkg-full's glue sites need) -/
 
